@@ -211,6 +211,93 @@ fn opt_out_wrappers(rep: &mut Report, rounds: usize) {
     }
 }
 
+
+/// `get_or_insert` called from inside a `Compound::load` (on the calling thread, or on the
+/// reloader thread during a reload) stores a value that hot-reloading must leave alone, also
+/// when the key is already known to the dependency graph.
+fn insert_inside_load(rep: &mut Report, rounds: usize) {
+    use crate::mem::{Hot, Mem};
+    use assets_manager::AssetCache;
+    type L = Leaf<1, 0, true>;
+    for round in 0..rounds {
+        rep.eval();
+        let variant = round % 3;
+        let mem = Mem::new("c10i", Hot::Yes);
+        mem.set_logging(false);
+        mem.write("x", "a", b"x0");
+        let mut cache = AssetCache::with_source(mem.clone());
+        let how = match variant {
+            // the same load makes the key known (load_owned) and then fills it
+            0 => {
+                mem.write("c", "n0", b"owned L10t x insert L10t x 50");
+                "Compound::load: load_owned(x) then get_or_insert(x, 50)"
+            }
+            // the key is known from an earlier load + remove
+            1 => {
+                let _ = cache.load::<L>("x");
+                cache.remove::<L>("x");
+                mem.write("c", "n0", b"insert L10t x 50");
+                "load(x); remove(x); Compound::load: get_or_insert(x, 50)"
+            }
+            // the get_or_insert happens on the reloader thread, when the compound is reloaded
+            _ => {
+                mem.write("c", "n0", b"owned L10t x");
+                "Compound::load: load_owned(x); recipe edited to load_owned(x) + get_or_insert(x, 50); reloaded"
+            }
+        };
+        let scen = json!({"kind": "get_or_insert inside Compound::load", "round": round, "how": how});
+        if cache.load::<Node<0>>("c").is_err() {
+            rep.inconclusive("insert_inside_load: the compound did not load");
+            return;
+        }
+        let pass = |mem: &Mem, cache: &AssetCache<Mem>| -> bool {
+            let sent = mem.sent();
+            if !crate::util::wait_until(if cfg!(miri) { 600_000 } else { 120_000 }, || cache.verif_events_handled() == Some(sent)) {
+                return false;
+            }
+            cache.hot_reload();
+            true
+        };
+        if variant == 2 {
+            mem.write("c", "n0", b"owned L10t x insert L10t x 50");
+            mem.notify_file("c", "n0");
+            if !pass(&mem, &cache) {
+                rep.inconclusive("insert_inside_load: barrier watchdog");
+                return;
+            }
+        }
+        let Some(hx) = cache.get_cached::<L>("x") else {
+            rep.violation("get-or-insert-result", "C10/get-or-insert-result", json!({"what": "the key filled by get_or_insert inside the load is absent"}), scen);
+            continue;
+        };
+        let before = (hx.read().v.clone(), hx.read().token.serial(), crate::scen::rid_num(hx.last_reload_id()));
+        if before.0 != V::Stored(50) {
+            rep.violation("get-or-insert-result", "C10/get-or-insert-result", json!({"stored": format!("{:?}", before.0), "want": "Stored(50)"}), scen.clone());
+            continue;
+        }
+        for g in 1..=3 {
+            mem.write("x", "a", format!("x{g}").as_bytes());
+            mem.notify_file("x", "a");
+            if !pass(&mem, &cache) {
+                rep.inconclusive("insert_inside_load: barrier watchdog");
+                return;
+            }
+            let now = (hx.read().v.clone(), hx.read().token.serial(), crate::scen::rid_num(hx.last_reload_id()));
+            if now != before {
+                rep.violation(
+                    "protected-rewritten",
+                    "C10/protected-rewritten:get-or-insert-inside-load",
+                    json!({"before": format!("{before:?}"), "after": format!("{now:?}"), "after_notified_edits_of_x.a": g}),
+                    scen.clone(),
+                );
+                break;
+            }
+            rep.count("protected_entries_checked", 1);
+        }
+        rep.nontrivial(mix(0x10b, round as u64));
+    }
+}
+
 pub fn run(args: &Args) -> Report {
     let mut rep = Report::new(args);
     rep.rule = "histories on one key mixing load / remove / take / clear / get_or_insert / (edit the file the key \
@@ -282,6 +369,7 @@ pub fn run(args: &Args) -> Report {
     }
     if args.shard == 0 {
         opt_out_wrappers(&mut rep, if miri { 1 } else { args.n(12, 60) });
+        insert_inside_load(&mut rep, if miri { 3 } else { args.n(12, 60) });
     }
     rep.exhaustive = Some(!miri);
     rep.floor_set("cache_kinds", if miri { 1 } else { 4 });
